@@ -362,6 +362,20 @@ class C14(Property):
             # 'ı' -> 'I'), so the real atomic_number('ſ') is 16. The property text speaks of case-insensitivity of symbols/names;
             # what happens to non-ASCII look-alikes is outside the ASCII-only model and is NOT judged here (see notes/C14.md).
             return None
+        elif op == 'group':
+            # independent reference: the textbook members of the main groups (not computed from the period lengths)
+            ref = {1: (1, 3, 11, 19, 37, 55, 87), 2: (4, 12, 20, 38, 56, 88), 13: (5, 13, 31, 49, 81, 113),
+                   14: (6, 14, 32, 50, 82, 114), 15: (7, 15, 33, 51, 83, 115), 16: (8, 16, 34, 52, 84, 116),
+                   17: (9, 17, 35, 53, 85, 117), 18: (2, 10, 18, 36, 54, 86, 118)}
+            got = periodic.groups.get(c['g'])
+            if (None if got is None else tuple(got)) != ref.get(c['g']):
+                return 'periodic.groups[%d] = %r, textbook members %r' % (c['g'], got, ref.get(c['g']))
+            if tuple(periodic.period_lengths) != (2, 8, 8, 18, 18, 32, 32) or sum(periodic.period_lengths) != 118:
+                return 'period_lengths = %r' % (periodic.period_lengths,)
+            for g, zs in ref.items():
+                # symbols of the first and last member as a second, table-independent anchor
+                if fg.SYMBOLS[zs[0] - 1] != {1: 'H', 2: 'Be', 13: 'B', 14: 'C', 15: 'N', 16: 'O', 17: 'F', 18: 'He'}[g]:
+                    return 'first member of group %d is %s' % (g, fg.SYMBOLS[zs[0] - 1])
         elif op == 'atomic_number' and 'expect' in c:
             try:
                 z = periodic.atomic_number(c['name'])
